@@ -15,7 +15,7 @@ import (
 // ingest and prune over a set of forest instances.  Shared by C06, C09, C10.
 
 type fOp struct {
-	Kind  string     `json:"kind"` // block | undo | verify | ingest | prune
+	Kind  string     `json:"kind"` // block | undo | verify | ingest | prune | badmodify
 	Block *gen.Block `json:"block,omitempty"`
 	K     int        `json:"k,omitempty"`
 	Slots []int      `json:"slots,omitempty"`
@@ -77,6 +77,15 @@ func genForestScenario(rng *rand.Rand, tag uint64, cfgs []InstCfg, o fGenOpts) f
 					// prune a random subset of live slots (those not remembered are ignored by Prune)
 					if sl := pickLiveSubset(rng, m); sl != nil {
 						s.Ops = append(s.Ops, fOp{Kind: "prune", Slots: sl})
+					}
+				case 5:
+					// a block the map forests must reject: live leaves followed by a hash that is
+					// not in the forest (K selects which); the state must be what it was
+					if sl := pickLiveSubset(rng, m); sl != nil {
+						if len(sl) > 3 {
+							sl = sl[:3]
+						}
+						s.Ops = append(s.Ops, fOp{Kind: "badmodify", Slots: sl, K: rng.Intn(3)})
 					}
 				}
 			}
@@ -238,6 +247,58 @@ func runForest(c *core.Ctx, s fScenario, setupFail failFn, obs fObserver) *World
 				}
 			}
 			c.Count("ops_"+op.Kind, 1)
+		case "badmodify":
+			hashes := slotsToHashes(op.Slots)
+			if len(hashes) == 0 {
+				continue
+			}
+			f := w.M.Forest()
+			for _, in := range w.Insts {
+				if in.MP == nil {
+					continue // Pollard.Modify does not look at the hashes; it is documented to trust its caller
+				}
+				dh := cloneHashes(hashes)
+				if in.Partial() {
+					// tracked leaves first, so that the rejection comes after some of the batch was looked at
+					var tr, un []Hash
+					for _, h := range dh {
+						if in.Rem[h] {
+							tr = append(tr, h)
+						} else {
+							un = append(un, h)
+						}
+					}
+					dh = append(tr, un...)
+				}
+				pr, _ := f.ProofForHashes(dh)
+				var bogus Hash
+				switch op.K {
+				case 0:
+					bogus = rm.FreshHash(s.Tag, uint64(oi))
+				case 1: // a dead leaf, if any
+					bogus = rm.FreshHash(s.Tag, uint64(oi)+1<<20)
+					for sl, a := range w.M.Alive {
+						if !a {
+							bogus = w.M.Leaves[sl]
+							break
+						}
+					}
+				default: // an internal node's hash
+					bogus = rm.FreshHash(s.Tag, uint64(oi)+2<<20)
+					for pos := uint64(0); pos < uint64(2)<<f.H; pos++ { // lowest internal node (deterministic)
+						if nd := f.Nodes[pos]; nd != nil && nd.Leaf < 0 {
+							bogus = nd.Hash
+							break
+						}
+					}
+				}
+				dh = append(dh, bogus)
+				err := in.MP.Modify(nil, dh, cloneProof(pr))
+				if err == nil {
+					fail(in.Cfg.Kind+".Modify", "accepted-deletion-of-absent-hash", "", fmt.Sprintf("%s: Modify deleting %s (the last one is not in the forest) with a proof for the others returned nil", in.Name, hashesStr(dh)))
+				}
+			}
+			c.Count("ops_rejected_modify", 1)
 		case "prune":
 			hashes := slotsToHashes(op.Slots)
 			for _, in := range w.Insts {
